@@ -66,6 +66,34 @@ CHECKS = {
              'all four contexts.',
         note='Surfaces above 1023 sectors cannot be overrun at the surface end by a 10-bit start sector; flux '
              'surfaces are covered by C05/C06.'),
+    'C03': dict(
+        category='exploration', design_ref='DESIGN.md section 2, C03',
+        technique='reference-model monitor: lister written from doc/bbcbasic.5 vs bbcbasic_to_text output on generated programs',
+        text='Generated well-formed programs for all 10 dialect names (every byte valid for the dialect used outside '
+             'strings, two-byte extensions, PDP11 0xC8 rule, 0x8D targets swept, strings with bytes 0x01-0xFF incl. '
+             'loop keywords, nested/multiple loops per line, line numbers 0 and maximum, lines up to 255 bytes) are '
+             'listed with LISTO values from a file and from standard input and compared byte for byte with a '
+             'reference lister whose uniform token table is parsed from doc/bbcbasic.5.',
+        note='The reference reproduces all 21 golden listings of the repository.  Inputs the documents leave open '
+             '(0x7F outside ARM/Mac, 0xFB for Mac, openers before closers on one line, negative depth) are not generated.'),
+    'C08': dict(
+        category='exploration', design_ref='DESIGN.md section 2, C08',
+        technique='sanitizer monitoring (ASan+UBSan, MSan, valgrind memcheck, pattern-init differential) plus returned-from-main hook record',
+        text='Hostile inputs (random bytes, mutated/truncated/extended programs, degenerate lines) x command lines '
+             '(10 dialects or none, LISTO valid/invalid, file/stdin/several/missing files, unknown options, --help, -D) '
+             'run on the ASan+UBSan build (signals, reports, status in {0,1}, RET hook record present, diagnostic on '
+             'failure), the MemorySanitizer build, the release vs pattern-initialised builds (outputs must agree) '
+             'and, sampled, under valgrind memcheck.',
+        note='Environment faults other than input content (ENOMEM, EIO) are out of scope; write faults are C11.'),
+    'C09': dict(
+        category='fault_enumeration', design_ref='DESIGN.md section 2, C09',
+        technique='exhaustive prefix enumeration and structure-aware single-byte corruption judged by a strict reference validator; metamorphic multi-file oracle',
+        text='Every proper non-empty prefix of generated programs must be rejected with a diagnostic and print a '
+             'byte-prefix of the intact listing; single-byte corruptions of start byte, length, terminator, tokens, '
+             '0x8D / extension codes at end of line and the end marker are judged by the strict reference validator '
+             '(still-valid edits must list as the reference does); 2-4 input files in several orders must give the '
+             'concatenation and the maximum status of the stand-alone runs.',
+        note='Inputs the documents leave open are skipped (counted as ambiguous_skipped in the evidence).'),
 }
 
 PENDING_REASON = 'check not built yet in this revision of /verif (see DESIGN.md section 7 for the order of work)'
